@@ -7,6 +7,32 @@ C04_CLAUSES = ('machine-rejects', 'stack-length', 'top', 'memory', 'claims', 'by
 SHIPPED = ['propositional', 'substitution', 'small_theory', 'definedness', 'kore_lemmas']
 
 
+def named_sequences():
+    """longer hand-written behaviours the bounded exploration does not reach (judged by the same trace specification):
+    a pattern and the proof of the same pattern saved one after the other (they share their printed name), then both loaded"""
+    M, I, BOT = pi2v.MV, pi2v.IMP, pi2v.BOT
+    def C(m, n=0, a=BOT, b=BOT, d=(), cs=()):
+        return {'m': m, 'n': n, 'a': a, 'b': b, 'd': list(d), 'cs': list(cs)}
+    mv = lambda i: C('metavar', i, cs=[[], [], [], [], []])
+    W = I(M(0), I(M(1), M(0)))
+    pat, prf = {'k': 'pat', 'p': W}, {'k': 'prf', 'p': W}
+    build = [mv(0), mv(1), mv(0), C('implies', a=M(1), b=M(0)), C('implies', a=M(0), b=I(M(1), M(0)))]
+    s1 = build + [C('save', a=pat), C('pop', a=pat), C('prop1'), C('save', a=prf), C('pop', a=prf), C('load', a=pat), C('pop', a=pat), C('load', a=prf)]
+    s2 = [C('prop1'), C('save', a=prf), C('pop', a=prf)] + build + [C('save', a=pat), C('pop', a=pat), C('load', a=prf), C('pop', a=prf), C('load', a=pat)]
+    s3 = build + [C('save', a=pat), C('save', a=pat), C('pop', a=pat), C('load', a=pat), C('load', a=pat)]
+    # a proved term with a pending substitution whose PLUG alone mentions the metavariable instantiated next
+    ES = pi2v.ES(M(2), 1, M(3))
+    P1 = I(M(0), I(M(1), M(0)))
+    Q = I(ES, I(M(1), ES))
+    s4 = [C('evar', 0), mv(3), mv(2), C('esubst', 1, a=M(2), b=M(3)), C('prop1'), C('instantiate', a=P1, d=[[0, ES]]),
+          C('instantiate', a=Q, d=[[3, pi2v.EV(0)]])]
+    SS = pi2v.SS(M(2), 1, M(3))
+    Q2 = I(SS, I(M(1), SS))
+    s5 = [C('svar', 0), mv(3), mv(2), C('ssubst', 1, a=M(2), b=M(3)), C('prop1'), C('instantiate', a=P1, d=[[0, SS]]),
+          C('instantiate', a=Q2, d=[[3, pi2v.SV(0)]])]
+    return [{'phase': 'proof', 'good': True, 'calls': s} for s in (s1, s2, s3, s4, s5)]
+
+
 def sig(call):
     """signature of the call at which a trace stops conforming (key of a finding)"""
     return call['m'] if isinstance(call, dict) else str(call)
@@ -17,6 +43,7 @@ def run(v, tier):
     v.assumptions += ['PyPublishKeepsTop: the tracker keeps published terms on its stack (pinned by test_interpreter_proof_state); Rel compares modulo these retained slots',
                       'calls take their operands from the tracker state, as the proof DSL does']
     seqs = gen.explore(v, 'C04', 'c04-model', 3 if quick else 4)
+    seqs = named_sequences() + seqs
     traces = gen.replay_sequences(seqs)
     v.sample({'phase': traces[-1]['phase'], 'calls': [c['m'] for c in traces[-1]['calls']]})
     fails = gen.validate(v, 'C04', 'c04-replay', traces)
